@@ -346,8 +346,15 @@ impl<T> HandleTable<T> {
         ensures final(self).wf(),
             final(self)@ == old(self)@.insert(key.0, value),
             final(self).capacity == old(self).capacity,
+            final(self).count == old(self).count + (if old(self)@.dom().contains(key.0) { 0int } else { 1int }),
     {
         let ind = self.find_ind(key);
+        proof {
+            if self@.dom().contains(key.0) {
+                let w = choose|i: int| 0 <= i < self.capacity && (#[trigger] self.handles@[i]).0 == key.0;
+                self.lemma_lookup(key, w, ind as int);
+            }
+        }
         let is_new_key = self.handles[ind].0 == 0;
         proof {
             lemma_occupied_update(self.handles@, ind as int, key);
@@ -538,6 +545,163 @@ impl<T> HandleTable<T> {
             }
         }
         result
+    }
+
+    /// number of occupied slots among the first i
+    pub open spec fn occ_prefix(h: Seq<Handle>, i: int) -> nat { occupied(h.take(i)) }
+
+    proof fn lemma_occ_prefix_step(h: Seq<Handle>, i: int)
+        requires 0 <= i < h.len(),
+        ensures Self::occ_prefix(h, i + 1) == Self::occ_prefix(h, i) + (if h[i].0 != 0 { 1nat } else { 0nat }),
+    {
+        assert(h.take(i + 1).drop_last() =~= h.take(i));
+        assert(h.take(i + 1).last() == h[i]);
+    }
+
+    proof fn lemma_occ_prefix_mono(h: Seq<Handle>, i: int)
+        requires 0 <= i <= h.len(),
+        ensures Self::occ_prefix(h, i) <= occupied(h),
+        decreases h.len() - i,
+    {
+        if i < h.len() {
+            Self::lemma_occ_prefix_step(h, i);
+            Self::lemma_occ_prefix_mono(h, i + 1);
+        } else {
+            assert(h.take(i) =~= h);
+        }
+    }
+
+    // R2 stub for alloc_storage: fresh zeroed handle array and uninitialised value array, or Err
+    #[verifier::external_body]
+    fn alloc_storage(capacity: usize) -> (r: Result<(Vec<Handle>, Vec<Option<T>>), ()>)
+        ensures r matches Ok((k, v)) ==> k@.len() == capacity && v@.len() == capacity
+            && (forall|i: int| 0 <= i < capacity ==> (#[trigger] k@[i]).0 == 0)
+            && (forall|i: int| 0 <= i < capacity ==> (#[trigger] v@[i]).is_none()),
+    { unimplemented!() }
+
+    // Kani-proved leaf contract (K✓) of the real pad_pot, after .max(4)
+    #[verifier::external_body]
+    fn pad_pot_max4(cap: usize) -> (r: usize)
+        requires 2 <= cap <= 0x2000_0000,
+        ensures r >= cap, r >= 4, r <= 0x4000_0000, (r & (r - 1) as usize) == 0,
+    { unimplemented!() }
+
+    proof fn lemma_empty_wf_parts(h: Seq<Handle>, cap: usize)
+        requires h.len() == cap, forall|i: int| 0 <= i < cap ==> (#[trigger] h[i]).0 == 0,
+        ensures occupied(h) == 0, chain(h, cap), unique(h),
+        decreases h.len()
+    {
+        if h.len() > 0 {
+            let t = h.drop_last();
+            assert forall|i: int| 0 <= i < t.len() implies (#[trigger] t[i]).0 == 0 by { assert(h[i].0 == 0); }
+            Self::lemma_empty_occ(h);
+        }
+    }
+
+    proof fn lemma_empty_occ(h: Seq<Handle>)
+        requires forall|i: int| 0 <= i < h.len() ==> (#[trigger] h[i]).0 == 0,
+        ensures occupied(h) == 0,
+        decreases h.len()
+    {
+        if h.len() > 0 {
+            let t = h.drop_last();
+            assert forall|i: int| 0 <= i < t.len() implies (#[trigger] t[i]).0 == 0 by { assert(h[i].0 == 0); }
+            Self::lemma_empty_occ(t);
+            assert(h.last() == h[h.len() - 1]);
+        }
+    }
+
+    fn adjust_capacity(&mut self, capacity: usize) -> (r: Result<(), ()>)
+        requires old(self).wf(), 2 <= capacity <= 0x2000_0000, capacity > old(self).capacity,
+        ensures final(self).wf(), final(self)@ == old(self)@,
+            r.is_ok() ==> final(self).capacity >= capacity,
+            r.is_err() ==> final(self).capacity == old(self).capacity,
+    {
+        let capacity = Self::pad_pot_max4(capacity);
+        let (mut keys, mut values) = Self::alloc_storage(capacity)?;
+        std::mem::swap(&mut self.handles, &mut keys);
+        std::mem::swap(&mut self.values, &mut values);
+        let old_cap = self.capacity;
+        self.count = 0;
+        self.capacity = capacity;
+        proof {
+            Self::lemma_empty_wf_parts(self.handles@, capacity);
+            assert(self.wf());
+        }
+        let ghost ov = values@;
+        let mut i = 0;
+        while i < old_cap
+            invariant
+                i <= old_cap, old_cap == old(self).capacity, keys@ == old(self).handles@, keys@.len() == old_cap,
+                values@.len() == old_cap, ov == old(self).values@,
+                old(self).wf(),
+                self.wf(), self.capacity == capacity, capacity > old_cap,
+                self.count == Self::occ_prefix(keys@, i as int),
+                forall|j: int| i <= j < old_cap ==> #[trigger] values@[j] == ov[j],
+                // the new table holds exactly the entries found in slots < i of the old arrays
+                forall|k: u32| #[trigger] self@.dom().contains(k) <==> (k != 0 && exists|j: int| 0 <= j < i && (#[trigger] keys@[j]).0 == k),
+                forall|j: int| 0 <= j < i && (#[trigger] keys@[j]).0 != 0 ==> self@[keys@[j].0] == ov[j].unwrap(),
+            decreases old_cap - i,
+        {
+            let key = keys[i];
+            proof {
+                Self::lemma_occ_prefix_step(keys@, i as int);
+                Self::lemma_occ_prefix_mono(keys@, i as int + 1);
+            }
+            if key.0 != 0 {
+                let value: T = values[i].take().unwrap();
+                let ghost before = self@;
+                proof {
+                    if before.dom().contains(key.0) {
+                        let j = choose|j: int| 0 <= j < i && (#[trigger] keys@[j]).0 == key.0;
+                        assert(keys@[j] == keys@[i as int]);
+                        assert(false);
+                    }
+                }
+                self._insert(key, value);
+                proof {
+                    assert forall|k: u32| #[trigger] self@.dom().contains(k) <==> (k != 0 && exists|j: int| 0 <= j < i + 1 && (#[trigger] keys@[j]).0 == k) by {
+                        if k == key.0 { assert(keys@[i as int].0 == k); }
+                        else if before.dom().contains(k) {
+                            let j = choose|j: int| 0 <= j < i && (#[trigger] keys@[j]).0 == k;
+                            assert(keys@[j].0 == k);
+                        }
+                    }
+                    assert forall|j: int| 0 <= j < i + 1 && (#[trigger] keys@[j]).0 != 0 implies self@[keys@[j].0] == ov[j].unwrap() by {
+                        if j < i {
+                            // distinct slots hold distinct handles in the old table
+                            assert(keys@[j] != keys@[i as int]);
+                        }
+                    }
+                }
+            } else {
+                proof {
+                    assert forall|k: u32| #[trigger] self@.dom().contains(k) <==> (k != 0 && exists|j: int| 0 <= j < i + 1 && (#[trigger] keys@[j]).0 == k) by {
+                        if self@.dom().contains(k) {
+                            let j = choose|j: int| 0 <= j < i && (#[trigger] keys@[j]).0 == k;
+                            assert(keys@[j].0 == k);
+                        }
+                    }
+                }
+            }
+            i += 1;
+        }
+        proof {
+            assert(final(self)@ =~= old(self)@) by {
+                assert forall|k: u32| final(self)@.dom().contains(k) <==> old(self)@.dom().contains(k) by {
+                    if old(self)@.dom().contains(k) {
+                        let j = choose|j: int| 0 <= j < old_cap && (#[trigger] old(self).handles@[j]).0 == k;
+                        assert(keys@[j].0 == k);
+                    }
+                }
+                assert forall|k: u32| final(self)@.dom().contains(k) implies #[trigger] final(self)@[k] == old(self)@[k] by {
+                    let j = choose|j: int| 0 <= j < old_cap && (#[trigger] keys@[j]).0 == k;
+                    let j0 = choose|j0: int| 0 <= j0 < old_cap && (#[trigger] old(self).handles@[j0]).0 == k;
+                    assert(j0 == j) by { if j0 != j { assert(old(self).handles@[j0] != old(self).handles@[j]); } }
+                }
+            }
+        }
+        Ok(())
     }
 }
 
